@@ -79,3 +79,35 @@ def container_arms(ctx: Ctx):
                 and norm(comp.elt.args[0]) == norm(comp.generators[0].target)
         ctx.check(ok, VALUE, cs[0].pattern if cs else tv, 'to_value', f'a {kind} argument is rebuilt element by element, whatever it holds (never shared with the caller)',
                   f'arms a {kind} can take: {[(norm(c.guard) if c.guard else None, norm(c.body[-1])) for c in cs]} -- a {kind} handed through keeps the lists inside it shared')
+
+
+# ----------------------------------------------------------------------
+# native floats: the special values keep their sign on the way in
+
+FLOATS = 'fpy2/number/number/floats.py'
+
+
+def native_float_specials(ctx: Ctx):
+    """A Python float enters as the number it is, sign included: `-nan` and `-inf` are negative specials (copysign and the
+    sign rules of products read that sign).  `x < 0` is False for every NaN, so the sign of a NaN has to be read with
+    `copysign`.  `Float.from_float` is evaluated, from its source, on the four special floats and the two zeros."""
+    import math
+
+    from ..minipy import Interp, Obj
+    cls = ctx.repo.cls(FLOATS, 'Float')
+    meths = {s.name: s for s in cls.body if isinstance(s, ast.FunctionDef)}
+    fn = meths.get('from_float')
+    if fn is None:
+        raise ShapeError('Float.from_float not found')
+
+    def mk(**k):
+        return Obj('Float', **k)
+    cases = [('nan', math.nan, 'isnan', False), ('-nan', math.copysign(math.nan, -1.0), 'isnan', True), ('inf', math.inf, 'isinf', False), ('-inf', -math.inf, 'isinf', True)]
+    for label, x, flag, neg in cases:
+        it = Interp({}, meths, globals_={'math': {'isnan': math.isnan, 'isinf': math.isinf, 'copysign': math.copysign, 'isfinite': math.isfinite}},
+                    overrides={'Float': mk, 'Float.nan': lambda s=False, ctx=None: mk(isnan=True, s=s, ctx=ctx), 'Float.inf': lambda s=False, ctx=None: mk(isinf=True, s=s, ctx=ctx),
+                               'math.isnan': math.isnan, 'math.isinf': math.isinf, 'math.copysign': math.copysign, 'math.isfinite': math.isfinite})
+        got = it.call_function(fn, [x, 'CTX'])
+        ok = isinstance(got, Obj) and bool(got.fields.get(flag)) and bool(got.fields.get('s', False)) == neg and got.fields.get('ctx') == 'CTX'
+        ctx.check(ok, FLOATS, fn, 'Float.from_float', f'float {label} enters as {"a negative" if neg else "a positive"} {flag[2:]}, under the context asked for',
+                  f'got {got!r}: `x < 0` is False for every NaN, so the sign bit of a negative NaN is dropped and copysign(3.0, -nan) gives +3.0')
